@@ -158,3 +158,13 @@ pub fn replay(part: &str, bytes: &[u8], _case: &Value, stats: &mut Stats) -> Ver
         _ => Err(Failure::new("unknown-part", json!({"part": part}))),
     }
 }
+
+/// Byte-level entry for the fuzz target (same decoder, same oracle).
+pub fn fuzz_entry(bytes: &[u8]) -> Verdict {
+    let mut st = Stats::new();
+    if bytes.first().map(|b| b & 1 == 1).unwrap_or(false) {
+        part_playouts(&bytes[1..], &mut st)
+    } else {
+        part_allmoves(bytes.get(1..).unwrap_or(&[]), &mut st)
+    }
+}
